@@ -1,4 +1,5 @@
 """A5: panic-site enumeration and discharge bookkeeping."""
+import re
 from . import mirutil
 from .absint import LOG_MACROS
 
@@ -109,11 +110,14 @@ def enumerate_sites(p, fns, include_log=True):
     """All panic-capable sites in the given functions.
     -> list of dicts {fn, bb, ln, kind, detail, key, in_log}"""
     out = []
+    counters = {}
     for f in sorted(fns):
         b = p.bodies.get(f)
         if b is None:
             continue
-        counters = {}
+        # a site is keyed by the function that contains it in the source; whether the expression sits in a
+        # closure of that function or in its body is an artefact of how it is written
+        froot = re.sub(r"(::\{closure#\d+\})+$", "", f)
         for bb in sorted(mirutil.reachable_blocks(b)):
             blk = b.blocks[bb]
             if blk.get("cleanup"):
@@ -149,7 +153,7 @@ def enumerate_sites(p, fns, include_log=True):
                         site = (CONDITIONAL_PANIC_CALLEES[d], t["f"].get("defargs", "")[:80])
             if site is None:
                 continue
-            base = "%s/%s/%s" % (f, site[0], site[1])
+            base = "%s/%s/%s" % (froot, site[0], site[1])
             n = counters.get(base, 0)
             counters[base] = n + 1
             in_log = bool(set(t.get("mx", ())) & LOG_MACROS)
